@@ -54,9 +54,11 @@ LEVEL_NOTE = ("Trusted: the Lean kernel (leanchecker re-check in the thorough ti
               "XML encodings (read-back predicates only), non-ASCII comments/PIs in HTML; the legacy FormatterToXML consumers of "
               "m_nextIsRaw are covered by the translator obligation and, as base of FormatterToHTML, by the HTML correspondence. "
               "html_indent_not_adjacent_to_text assumes no void element is given children (counterexample proved and replayed). "
-              "Two known findings with proposed repairs: FormatterToHTML::cdata (copied CDATA section nodes of a Xerces DOM source) "
-              "and the ignored start offset of XSLTEngineImpl::charactersRaw/cdata; the affected cases are keyed and, for the "
-              "first, not compared with the model (which states the HTML output method: html_raw_scoped_to_script_style).")
+              "The UTF-8 encoder of XalanUTF8Writer is modelled (utf8_bulk_eq_unitwise, tied by the regenerated loop-shape facts and a "
+              "byte-for-byte comparison with the real writer); the other writers and the byte order of their writes are C04's "
+              "(encoding_writers_flush_before_bulk_write restates its regenerated facts). Two known findings: disable-output-escaping "
+              "text with a character outside the BMP under a non-Unicode encoding (repair proposed, needs C04's translator to accept "
+              "the new loop) and non-characters accepted in names / PI targets / disable-output-escaping text.")
 DESIGN_REF = "DESIGN.md section 5, C08; design/C08.md"
 
 P = "XalanModel.Props.C08."
@@ -79,6 +81,8 @@ THEOREMS = [P + n for n in [
     "raw_flag_consumers_reset",
     "html_raw_scoped_to_script_style",
     "engine_slice_spec",
+    "utf8_bulk_eq_unitwise",
+    "utf8_bulk_loop_advances",
     "encoding_writers_flush_before_bulk_write",
     "callpoints_match",
     "html_table_sorted",
@@ -246,6 +250,30 @@ def valid_units(t):
             return False
         i += 1
     return True
+
+
+def enc_class(enc):
+    return "UTF-16" if enc.startswith("UTF-16") else "UTF-8" if enc in ("UTF-8", "") else "non-Unicode"
+
+
+def iter_nodes(nodes):
+    for n in nodes:
+        yield n
+        if n[0] == "elem":
+            yield from iter_nodes(n[3])
+
+
+def name_strings(doc):
+    for n in iter_nodes(doc):
+        if n[0] == "elem":
+            yield n[1]
+            for a, _ in n[2]:
+                yield a
+        elif n[0] == "pi":
+            yield n[1]
+            yield n[2]
+        elif n[0] == "comment":
+            yield n[1]
 
 
 def has_raw(nodes):
@@ -494,6 +522,8 @@ def sax_variants(r, thorough):
     mk("standalone", standalone=r.choice(["yes", "no"]), xmldecl=r.chance(1, 2))
     mk("doctype", dsys="sys.dtd", dpub=r.choice(["", "-//X//DTD y//EN", "-//W3C//DTD XHTML 1.0 Strict//EN"]))
     mk("v11", ver="1.1")
+    mk("supdoctype", dsys="s" * r.choice([0, 3, 470, 509, 510, 511]) + "\U0001f600.dtd", dpub=r.choice(["", "-//X//DTD y//EN"]),
+       enc=r.choice(["UTF-8", "UTF-8", "UTF-16", "UTF-16BE"]))
     mk("longdoctype", dsys="s" * r.choice([511, 513, 1025]) + ".dtd", dpub=r.choice(["", "-//X//" + "p" * 600 + "//EN"]),
        enc=r.choice(["UTF-16", "UTF-8", "ISO-8859-1"]))
     n = 4 if thorough else 2
@@ -533,19 +563,42 @@ def check_xml_group(ctx, state, doc, evs, variants, replies, mreplies, lines, cd
     """replies: implementation replies (one per variant).  Evaluates the property predicates and the
     model correspondence for one event script under several option settings."""
     raw = has_raw(doc)
-    if kind == "sax" and not all(valid_units(x) for e in evs for x in (e[1:] if e[0] != "S" else [v for _, v in e[2]]) if isinstance(x, str)):
-        # unpaired surrogate, U+FFFE, U+FFFF, NUL: not XML characters, every setting must refuse them
+    if kind == "sax":
+        content_bad = not all(valid_units(x) for e in evs for x in
+                              ([e[1]] if e[0] in ("T", "C", "M") else [e[2]] if e[0] == "P" else [v for _, v in e[2]] if e[0] == "S" else []))
+        bulk_bad = not all(valid_units(x) for e in evs for x in
+                           ([e[1]] if e[0] in ("R", "E") else [e[1]] if e[0] == "P" else [e[1]] + [a for a, _ in e[2]] if e[0] == "S" else []))
+    else:
+        content_bad = bulk_bad = False
+    if content_bad or bulk_bad:
+        # unpaired surrogate, U+FFFE, U+FFFF, NUL: not XML characters, every setting must refuse them.  In text, CDATA,
+        # attribute values, comments and PI data the serializer does; in the strings it writes through the writers' bulk
+        # path (names, PI targets, disable-output-escaping text) it does not everywhere (recorded finding)
         for (tag, cfg), rep, mrep, line in zip(variants, replies, mreplies, lines):
             key_in = {"kind": kind, "variant": tag, "cfg": cfg, "doc": doc, "line": line}
             if not rep.startswith("ERR:"):
-                state["fail"](ctx, "xml.non-character-accepted[%s]" % tag, "a non-character was serialized: %s" % rep[:80], key_in)
+                if content_bad:
+                    state["fail"](ctx, "xml.non-character-accepted[%s]" % tag, "a non-character was serialized: %s" % rep[:80], key_in)
+                else:
+                    state["fail"](ctx, "xml.non-character-accepted-in-bulk-path[%s]" % enc_class(cfg["enc"]),
+                                  "a non-character in a name, PI target or disable-output-escaping text was serialized: %s" % rep[:80], key_in)
             if not mrep.startswith("ERR"):
                 state["disagree"](tag, line, rep, mrep, "model accepts a non-character")
         return
+    nonbmp_names = any(ord(c) > 0xFFFF or 0xD800 <= ord(c) <= 0xDFFF for e in evs for x in
+                       ([e[1]] if e[0] in ("E", "P") else [e[1]] + [a for a, _ in e[2]] if e[0] == "S" else []) for c in x) if kind == "sax" else False
+    raw_nonbmp = any(ord(c) > 0xFFFF for e in evs if e[0] == "R" for c in e[1]) or \
+        any(ord(c) > 0xFFFF for n in iter_nodes(doc) if n[0] in ("raw", "rtfraw") for c in n[1])
     exp = expected_tree(doc)
     base_tree = None
     for (tag, cfg), rep, mrep, line in zip(variants, replies, mreplies, lines):
         key_in = {"kind": kind, "variant": tag, "cfg": cfg, "doc": doc, "cdata": list(cdata_elems), "line": line}
+        enc0 = cfg["enc"] if kind == "sax" else cfg.get("_enc", "UTF-8")
+        if not rep.startswith("ok ") and enc0 in MAXCHAR and any(ord(c) > MAXCHAR[enc0] for x in name_strings(doc) for c in x):
+            # a name, PI target/data or comment the encoding cannot represent has no escape: an error, as the model says
+            if not mrep.startswith("ERR"):
+                state["disagree"](tag, line, rep, mrep, "model does not report the unrepresentable name")
+            continue
         if not rep.startswith("ok "):
             v11 = cfg.get("ver") == "1.1" or any(k == "version" and v == "1.1" for k, v in cfg.get("out", []))
             ctl = tab_or_cr_outside_text(doc, cdata_elems if kind == "sax" else
@@ -578,11 +631,17 @@ def check_xml_group(ctx, state, doc, evs, variants, replies, mreplies, lines, cd
             state["disagree"](tag, line, rep, mrep, "model reply")
         elif mt != text:
             state["disagree"](tag, line, text, mt, "rendered output differs")
+        if nonbmp_names:
+            continue        # expat has fourth-edition names: decoding and the exact comparison above are the checks
         # specification predicate: parse back
         try:
             tree = parse_xml(data, enc)
         except xml.parsers.expat.ExpatError as e:
             # (every disable-output-escaping string the generator uses is itself a well-formed fragment)
+            if raw_nonbmp and enc in MAXCHAR and not state.get("facts", {}).get("otherBulkPairs", True) and mt == text:
+                state["fail"](ctx, "xml.raw-supplementary-character-nonunicode-encoding[%s]" % tag,
+                              "disable-output-escaping text with a character outside the BMP is written as two surrogate references: %r" % text[:200], key_in)
+                continue
             state["fail"](ctx, ukey or "xml.not-wellformed[%s]" % tag, "output does not parse: %s: %r" % (e, text[:200]), key_in)
             continue
         cdset = cdata_elems if kind == "sax" else [x for k, v in cfg.get("out", []) if k == "cdata" for x in v]
@@ -645,7 +704,7 @@ def run(ctx):
     ctx.translate("c04_tables")     # writer/stream buffer facts (bulkFlush…) used as an obligation of the encoding theorems
     ctx.lean("XalanModel.Props.C08", THEOREMS, extra_targets=["xm_c08"])
     model = ctx.exe("xm_c08")
-    harness = common.build_harness("c08_serialize", ["c08_serialize.cpp"], flavor="hooks", sanitize=False)
+    harness = common.build_harness("c08_serialize", ["c08_serialize.cpp"], flavor="hooks", sanitize=False, extra=("-DNDEBUG",))
     work = os.path.join(common.CACHE, "work")
     os.makedirs(work, exist_ok=True)
     if model is None:
@@ -656,6 +715,7 @@ def run(ctx):
     disagreements = []
     state = {
         "fail": lambda c, key, what, inp: c.fail(key, what, inp),
+        "facts": json.load(open(os.path.join(common.CACHE, "c08_facts.json"))) if os.path.exists(os.path.join(common.CACHE, "c08_facts.json")) else {},
         "disagree": lambda tag, line, a, b, why: disagreements.append({"variant": tag, "why": why, "impl": a[:300] if a else a,
                                                                         "model": b[:300] if b else b, "line": line[:2000]}),
     }
@@ -666,6 +726,7 @@ def run(ctx):
     facts = json.load(open(factspath)) if os.path.exists(factspath) else {}
     run_xs(ctx, r, runner, state, tab, facts)
     run_eraw(ctx, r, runner, state, facts)
+    run_u8(ctx, r, runner, state)
     run_xf(ctx, r, runner, state, tab)
     ctx.oblige("correspondence: real serializer output = Lean model rendering on every generated case", "correspondence",
                not disagreements, json.dumps(disagreements[:3], ensure_ascii=True))
@@ -728,6 +789,27 @@ def long_docs():
     return out
 
 
+def bulk_supplementary_docs():
+    """characters outside the BMP written through the writers' bulk path — disable-output-escaping text (direct and
+    replayed from a result tree fragment), element and attribute names, PI targets — at the start, in the middle and at
+    the end of a run, and at every alignment around the 512-byte / 512-unit buffer boundaries"""
+    P = "\U0001f600"
+    out = []
+    for k in [0, 1, 2, 3] + list(range(440, 520, 3)) + [1021, 1022, 1023, 1024]:
+        w = "a" * k
+        out.append(([("elem", "a", [], [("raw", w + P + "b")])], []))
+        if k % 9 == 0 or k < 4:
+            out.append(([("elem", "a", [], [("elem", "b", [], [("rtfraw", P + w + P), ("text", "1 < 2")])])], ["b"]))
+            out.append(([("elem", "a", [], [("elem", "n" + w + P, [], [("text", "t")])])], []))
+            out.append(([("elem", "a", [("k" + w + P + "z", "v")], [("pi", "t" + w + P, "d"), ("raw", P)])], []))
+    out.append(([("elem", "a", [], [("raw", P + P + "x" + P)]), ], []))
+    return out
+
+
+# unpaired surrogates and U+FFFF in the strings that go through the bulk path
+BULK_NONCHAR_DOCS = [([("elem", "a", [], [("raw", t)])], []) for t in ["x\udc00y", "x\ud800", "\ud800y", "x\uffff"]]
+BULK_NONCHAR_DOCS += [([("elem", "a\udc00", [], [])], []), ([("elem", "a", [("k\ud800", "v")], [])], []), ([("elem", "a", [], [("pi", "t\udc00", "d")])], [])]
+
 NONCHAR_DOCS = [([("elem", "a", [], [("text", t)])], cd) for t in ["x\udc00y", "\ud800", "x\ud800y", "\ufffe", "x\uffff"] for cd in (["a"], [])]
 NONCHAR_DOCS += [([("elem", "a", [("k", "\udc00")], [])], []), ([("elem", "a", [], [("comment", "c\ud800")])], [])]
 
@@ -762,7 +844,7 @@ def check_text_output(ctx, state, tag, enc, want, rep, mrep, line, inp):
 
 def run_sax_xml(ctx, r, runner, state):
     n = 1500 if not ctx.thorough else 12000
-    docs = [(d, c) for d, c in CORPUS_DOCS + NONCHAR_DOCS + long_docs()]
+    docs = [(d, c) for d, c in CORPUS_DOCS + NONCHAR_DOCS + BULK_NONCHAR_DOCS + long_docs() + bulk_supplementary_docs()]
     for _ in range(n):
         doc = G.gen_doc(r, maxdepth=3 if not ctx.thorough else 4)
         cd = [x for x in G.NAMES if r.chance(1, 4)] if r.chance(1, 3) else []
@@ -981,6 +1063,46 @@ def doc_as_text(nodes):
         else:
             out.append(n)
     return out
+
+
+# ---- XalanUTF8Writer alone: bulk write, writeSafe, positional write
+
+def run_u8(ctx, r, runner, state):
+    P, Q = "\U0001f600", "\U00010000"
+    seqs = [P, P + Q, "\u00e9" + P, "\u20ac" + P + "\u20ac", "\ud83d", "\ud83db", "\ude00", "\uffff", "x"]
+    fills = [0, 1, 2, 3, 255, 507, 508, 509, 510, 511, 512, 513, 1019, 1020, 1021, 1022, 1023, 1024]
+    if ctx.thorough:
+        fills = sorted(set(fills + list(range(480, 530)) + list(range(1000, 1030))))
+    cases = []
+    for k in fills:
+        for sq in seqs:
+            for tail in ("", "b"):
+                cases.append("a" * k + sq + tail)
+    lines, meta = [], []
+    for run_ in cases:
+        for kind in ("bulk", "safe", "unit"):
+            meta.append((kind, run_))
+            lines.append("u8 %s %s" % (kind, G.hx(run_)))
+    il, ml, irc, mrc, ierr, merr = runner.run(lines, "u8")
+    if irc != 0 or len(il) < len(lines):
+        ctx.fail("u8.crash", "harness stopped (rc=%s) at request %d: %s" % (irc, len(il), ierr[-400:]), {"line": lines[min(len(il), len(lines) - 1)][:300]})
+        return
+    if mrc != 0 or len(ml) < len(lines):
+        ctx.oblige("model driver ran to completion (u8)", "correspondence", False, merr[-600:])
+        return
+    for (kind, run_), rep, mrep, line in zip(meta, il, ml, lines):
+        inp = {"kind": "u8", "entry": kind, "run_units": G.hx(run_)[:400], "line": line[:400]}
+        wellformed = valid_units(run_.replace("\uffff", "x").replace("\x00", "x"))
+        ctx.case(nontrivial_key=line if any(ord(c) > 0xFFFF for c in run_ if not 0xD800 <= ord(c) <= 0xDFFF) else None, cls="u8:" + kind)
+        got = bytes.fromhex(rep[3:]) if rep.startswith("ok ") and rep != "ok -" else (b"" if rep == "ok -" else None)
+        if wellformed:
+            want = run_.encode("utf-8")
+            if got != want:
+                ctx.fail("u8.bytes[%s]" % kind, "XalanUTF8Writer (%s) wrote %r for a run whose UTF-8 encoding is %r" % (
+                    kind, (got or rep)[-24:] if got is not None else rep, want[-24:]), inp)
+        mb = None if not mrep.startswith("ok ") else bytes(ord(c) for c in G.unhx4_raw(mrep[3:]))
+        if (got is None) != (mb is None) or (got is not None and got != mb):
+            state["disagree"]("u8:" + kind, line, rep[:80], mrep[:80], "UTF-8 writer bytes differ from the model")
 
 
 # ---- the engine's (buffer, start, length) entry points
@@ -1426,7 +1548,7 @@ def replay(ctx, path):
     ctx.translate("c08_html_table")
     common.lake_build(["xm_c08"])
     model = ctx.exe("xm_c08")
-    harness = common.build_harness("c08_serialize", ["c08_serialize.cpp"], flavor="hooks", sanitize=False)
+    harness = common.build_harness("c08_serialize", ["c08_serialize.cpp"], flavor="hooks", sanitize=False, extra=("-DNDEBUG",))
     work = os.path.join(common.CACHE, "work")
     os.makedirs(work, exist_ok=True)
     il, ml, irc, mrc, ierr, merr = Runner(ctx, harness, model, work).run([line], "replay")
